@@ -41,6 +41,7 @@ class Desurvey(Scenario):
             for q in qs:
                 cx.assume(q >= 0)
             dh.surveys = mk_array(X, [x for i in range(n) for x in (d[i], az[i], dp[i])], (n, 3), "float64")
+            _ = dh.locations            # path evaluated with the old collar: assigning the collar must invalidate it
             dh.collar = list(col)
             pos0 = elems(dh.desurvey(mk_array(X, [0.0], (1,), "float64")))
             cx.prove(And([eq(pos0[a], col[a]) for a in range(3)]), "position(0) == collar", "collar at depth zero")
